@@ -154,13 +154,13 @@ void harness_walk_container(void) {
     POST(g_self_start == (has_start ? 1u : 0u), "C14 block/frame start exactly once");
     POST(!g_self_start || (g_self_start_snap_a == f0 && g_self_start_snap_b == l0), "C14 container start before any of its frames and loops");
     POST(!g_self_end || g_self_start_at_end == (has_start ? 1u : 0u), "C14 container start before container end");
-    POST(g_self_start_ret != CIF_TRAVERSE_CONTINUE ==> (g_frame_calls == f0 && g_loop_calls == l0 && g_self_loops_walks == 0 && g_self_end == 0 && r == g_self_start_ret),
+    POST(g_self_start_ret != CIF_TRAVERSE_CONTINUE ==> (g_frame_calls == f0 && g_loop_calls == l0 && g_self_loops_walks == 0 && g_self_frames_got == 0 && g_self_end == 0 && r == g_self_start_ret),
          "C14 container start answer other than CONTINUE suppresses its content");
     POST(g_self_loops_walks <= 1, "C14 the loops of a container are walked at most once");
     POST((g_self_loops_walks == 1 && depth + 1 == g_wd) ==> g_self_frames_at_loops == g_frame_calls, "C14 a container's save frames come before its loops");
     POST((depth + 1 == g_wd && g_frame_sib == fs0 && g_self_loops_walks == 1) ==> g_frame_calls == f0 + g_self_nframes, "C14 every save frame walked when nobody skips");
     POST((depth + 1 == g_wd && g_frame_sib != fs0 && NAV_SIB(g_frame_last)) ==> g_self_loops_walks == 1, "C14 SKIP_SIBLINGS from a frame does not suppress the loops (loops are not siblings of frames)");
-    POST((g_stopped && g_self_loops_walks == 0 && g_self_frames_got) ==> g_loop_calls == l0, "C14 END / error from a frame suppresses the loops too");
+    POST((depth + 1 == g_wd && g_frame_sib != fs0 && IS_STOP(g_frame_last)) ==> g_self_loops_walks == 0, "C14 END / error from a frame suppresses the loops too");
     POST(!g_self_end || (g_self_end_snap_b == g_loop_calls && g_self_loops_walks == 1), "C14 container end after all its frames and loops");
     if (g_self_end) REACH("container-end"); if (g_stopped) REACH("stopped"); if (g_self_loops_walks) REACH("loops-walked"); if (r == CIF_TRAVERSE_SKIP_SIBLINGS) REACH("skip-sib");
 }
